@@ -5,6 +5,7 @@
 From Coq Require Import List NArith ZArith Bool Lia ZifyBool Arith.
 Import ListNotations.
 Require Import OJD.Base OJD.Numerals OJD.NumPrint.
+Require OJD.NumeralsProofs.   (* the digit lemmas only (qualified: that file has its own printer) *)
 Ltac Zify.zify_post_hook ::= Z.to_euclidean_division_equations.
 
 (* value of a digit string read left to right, starting from [acc] *)
@@ -21,8 +22,12 @@ Proof. reflexivity. Qed.
 Lemma is_digit_char : forall d, (d < 10)%N -> is_digit (48 + d) = true.
 Proof. intros d H. unfold is_digit. lia. Qed.
 
-Lemma digit_val_char : forall d, digit_val (48 + d) = Z.of_N d.
-Proof. intros d. unfold digit_val. lia. Qed.
+(* (for d < 10 only: 48 + d may be a digit of another script, with another value) *)
+Lemma digit_val_char : forall d, (d < 10)%N -> digit_val (48 + d) = Z.of_N d.
+Proof.
+  intros d H. rewrite NumeralsProofs.digit_val_ascii_eq by (unfold is_digit_ascii; lia).
+  unfold digit_val_ascii. lia.
+Qed.
 
 (* ---------------- digits_of_N ---------------- *)
 
@@ -42,11 +47,11 @@ Proof.
     rewrite digits_fuel_S. assert (Hq : (n / 10 = 0)%N) by (change (2 ^ N.of_nat 1)%N with 2%N in Hn; lia).
     rewrite Hq. cbn [N.eqb]. exists [(48 + n mod 10)%N]. split; [reflexivity|].
     split; [unfold all_digits; cbn [forallb]; rewrite is_digit_char; [reflexivity|lia]|]. split; [discriminate|].
-    unfold dval; cbn [fold_left]. rewrite digit_val_char. lia.
+    unfold dval; cbn [fold_left]. rewrite digit_val_char by lia. lia.
   - rewrite digits_fuel_S. destruct (N.eqb (n / 10) 0) eqn:Eq.
     + apply N.eqb_eq in Eq. exists [(48 + n mod 10)%N]. split; [reflexivity|].
       split; [unfold all_digits; cbn [forallb]; rewrite is_digit_char; [reflexivity|lia]|]. split; [discriminate|].
-      unfold dval; cbn [fold_left]. rewrite digit_val_char. lia.
+      unfold dval; cbn [fold_left]. rewrite digit_val_char by lia. lia.
     + apply N.eqb_neq in Eq.
       assert (Hq : (n / 10 < 2 ^ N.of_nat (S f))%N).
       { rewrite Nat2N.inj_succ in Hn. rewrite N.pow_succ_r' in Hn.
@@ -56,7 +61,7 @@ Proof.
       split.
       { unfold all_digits in *. rewrite forallb_app, Hd. cbn [forallb andb]. rewrite is_digit_char; [reflexivity|lia]. }
       split; [destruct ds; discriminate|].
-      rewrite dval_app, Hv. unfold dval; cbn [fold_left]. rewrite digit_val_char. lia.
+      rewrite dval_app, Hv. unfold dval; cbn [fold_left]. rewrite digit_val_char by lia. lia.
 Qed.
 
 Lemma digits_of_N_spec : forall n,
@@ -187,8 +192,7 @@ Proof.
   induction k as [|k IH]; intros a.
   - cbn. lia.
   - unfold zeros. cbn [repeat]. rewrite dval_cons. fold (zeros k). rewrite IH.
-    unfold digit_val, zero_c. rewrite Nat2Z.inj_succ, Z.pow_succ_r by lia.
-    change (Z.of_N (48 - 48)) with 0%Z. ring.
+    change (digit_val zero_c) with 0%Z. rewrite Nat2Z.inj_succ, Z.pow_succ_r by lia. ring.
 Qed.
 
 Lemma all_digits_zeros : forall k, all_digits (zeros k) = true.
